@@ -259,6 +259,16 @@ def edge_texts():
             out.append("(function(x) external %s)(%s)" % (body, arg))
         out.append("{f: function(a, b) external %s, r: [f(1, 2), f, f = f, string(f), f instance of function<number, number>->number]}.r" % body)
         out.append("for g in [function(x) external %s] return g(2)" % body)
+    # every ordered pair of escapes around the UTF-16 surrogate ranges, in both escape spellings, also as the last thing in the literal
+    marks = ["D7FF", "D800", "D83D", "DBFF", "DC00", "DE00", "DFFF", "E000", "0041", "FFFF", "0000"]
+    for a in marks:
+        for b in marks:
+            for fa, fb in (("\\u%s", "\\u%s"), ("\\U00%s", "\\u%s"), ("\\u%s", "\\U00%s"), ("\\U00%s", "\\U00%s")):
+                out.append('"x%sy"' % ((fa % a) + (fb % b)))
+        out.append('"\\u%s' % a)
+        out.append('"\\u%s\\u' % a)
+        out.append('"\\u%s\\uD8"' % a)
+        out.append('string length("\\u%s\\U10FFFF\\U110000")' % a)
     # sort() with ordering functions that are not strict weak orders, on lists long enough for every algorithm path
     lists = ["for i in 1..50 return i", "for i in 1..50 return modulo(i * 7, 11)", "for i in 1..21 return -i", "for i in 1..64 return if modulo(i, 3) = 0 then null else i", "for i in 1..30 return \"s\" + string(modulo(i, 4))", "[3, 1, 2]", "[]", "[1]", "nestl", "bigl"]
     orders = ["function(x, y) true", "function(x, y) false", "function(x, y) null", "function(x, y) 1", "function(x, y) modulo(x + y, 3) = 0", "function(x, y) x != y", "function(x, y) x >= y", "function(x, y) modulo(x, 2) < modulo(y, 2)",
